@@ -57,13 +57,32 @@ func findPushHandler(c *core.Ctx) *pushHandler {
 			if core.FuncPkgPath(hs.fn) != c.P.Module || len(hs.inserts) == 0 {
 				continue
 			}
+			// the bytes are what was read from a reader: io.ReadAll(reader), or the contents of a bytes.Buffer
+			// filled by ReadFrom(reader)
 			ra, idx := an.CallOf(hs.bytes)
-			if ra == nil || idx != 0 || !an.IsFunc(ra, "io", "ReadAll") {
+			var readerArg ssa.Value
+			switch {
+			case ra != nil && idx == 0 && an.IsFunc(ra, "io", "ReadAll"):
+				readerArg = ra.Call.Args[0]
+			case ra != nil && an.IsMethod(ra, "bytes", "Buffer", "Bytes"):
+				buf, _ := an.CallArgs(ra)
+				ra = nil
+				an.Calls(hs.fn, func(call ssa.CallInstruction) {
+					if cc, ok := call.(*ssa.Call); ok && an.IsMethod(cc, "bytes", "Buffer", "ReadFrom") {
+						if rb, args := an.CallArgs(cc); an.Origin(rb) == an.Origin(buf) && len(args) == 1 {
+							ra, readerArg = cc, args[0]
+						}
+					}
+				})
+			default:
+				ra = nil
+			}
+			if ra == nil || readerArg == nil {
 				continue
 			}
 			ph := &pushHandler{hs: hs, readAll: ra, parsed: map[*ssa.Alloc]string{}, unmarshal: map[*ssa.Call]*ssa.Alloc{}, verifiers: map[*ssa.Call]string{}, insert: hs.inserts[0]}
 			// the reader
-			src := an.Origin(ra.Call.Args[0])
+			src := an.Origin(readerArg)
 			isBody := func(v ssa.Value) bool {
 				_, p := accessPath(an.Origin(v))
 				return len(p) > 0 && p[len(p)-1] == "Body"
@@ -1100,5 +1119,106 @@ func init() {
 				}})
 			c.Check(badSize == token.NoPos, "derived:Size", fn.Pos(), "every successful return of %s has set Size = len(raw): %v", c.P.FuncName(fn), badSize == token.NoPos)
 			c.Check(badAnnot == token.NoPos, "derived:Annotations", fn.Pos(), "every successful return of %s has set Annotations from the parsed manifest unconditionally: %v — otherwise annotations of the descriptor passed in (a stale fallback entry) survive, the entry validates against itself and the referrers API serves annotations the manifest never declared", c.P.FuncName(fn), badAnnot == token.NoPos)
+		}})
+}
+
+func init() {
+	register(&Rule{ID: "TS-DETECT", Floor: 1,
+		Doc: "the push handler compares the declared media type with the kind the detector finds in the body, and skips the comparison when the detector answers \"\"; hence the detector may answer \"\" only on paths on which every field test it made found the field absent (or the body did not parse) — a path that saw a kind marker present and still answers \"\" lets such a body through under any declared type",
+		Run: func(c *core.Ctx) {
+			r := requireRoles(c)
+			if r == nil {
+				return
+			}
+			var fn *ssa.Function
+			for _, f := range c.P.Funcs("types") {
+				if f.Name() == "MediaTypeDetect" && f.Parent() == nil {
+					fn = f
+				}
+			}
+			if fn == nil {
+				c.Unresolved("MediaTypeDetect", "detector not found")
+				return
+			}
+			var parsed ssa.Value
+			an.Calls(fn, func(call ssa.CallInstruction) {
+				if an.IsFunc(call, "encoding/json", "Unmarshal") && len(call.Common().Args) == 2 {
+					if mi, ok := call.Common().Args[1].(*ssa.MakeInterface); ok {
+						parsed = mi.X
+					}
+				}
+			})
+			if parsed == nil {
+				c.Unresolved("MediaTypeDetect:parse", "the parsed body was not found")
+				return
+			}
+			// presentSucc: for a branch that tests a field of the parsed body for emptiness, the successor on which the field is present
+			presentSucc := func(ifi *ssa.If) (int, string, bool) {
+				base, neg := an.CondBase(ifi.Cond)
+				bo, ok := base.(*ssa.BinOp)
+				if !ok {
+					return 0, "", false
+				}
+				x, y := bo.X, bo.Y
+				if _, isC := x.(*ssa.Const); isC {
+					x, y = y, x
+				}
+				field := func(v ssa.Value) (string, bool) {
+					if l := lenOf(v); l != nil {
+						v = l
+					}
+					root, p := accessPath(an.Strip(v))
+					if root == parsed && len(p) > 0 {
+						return strings.Join(p, "."), true
+					}
+					return "", false
+				}
+				f, ok := field(x)
+				if !ok {
+					return 0, "", false
+				}
+				emptyConst := false
+				if s, ok := an.ConstString(y); ok && s == "" {
+					emptyConst = true
+				}
+				if n, ok := an.ConstInt(y); ok && n == 0 {
+					emptyConst = true
+				}
+				if !emptyConst {
+					return 0, "", false
+				}
+				ps := -1
+				switch bo.Op {
+				case token.EQL, token.LEQ:
+					ps = 1 // == "" / len <= 0: present on the false side
+				case token.NEQ, token.GTR:
+					ps = 0
+				default:
+					return 0, "", false
+				}
+				if neg {
+					ps = 1 - ps
+				}
+				return ps, f, true
+			}
+			bad, badField := token.NoPos, ""
+			an.Paths(an.PathSpec[string]{Fn: fn, Init: "",
+				Instr: func(s string, in ssa.Instruction) []string {
+					if ret, ok := in.(*ssa.Return); ok && s != "" && len(ret.Results) == 1 {
+						if v, ok := an.ConstString(ret.Results[0]); ok && v == "" && bad == token.NoPos {
+							bad, badField = ret.Pos(), s
+						}
+					}
+					return []string{s}
+				},
+				Edge: func(s string, from *ssa.BasicBlock, succ int) (string, bool) {
+					if ifi := an.BlockIf(from); ifi != nil && s == "" {
+						if ps, f, ok := presentSucc(ifi); ok && succ == ps {
+							return f, true
+						}
+					}
+					return s, true
+				}})
+			c.Check(bad == token.NoPos, "gives-up-only-without-markers", fn.Pos(), "%s answers \"\" only where every field it tested was absent (it gives up at %s although %s was found present): %v — otherwise a body of a recognisable kind is not recognised and the handler's comparison with the declared media type is skipped for it", c.P.FuncName(fn), c.P.Pos(bad), badField, bad == token.NoPos)
 		}})
 }
